@@ -332,6 +332,7 @@ func (v *Verifier) verifyFunc(key string, timeout int, tier string) *FuncReport 
 	}
 	x := v.newExec(fn, con, timeout)
 	x.retCover = true
+	x.noMerge = os.Getenv("GOWP_NOMERGE") != ""
 	func() {
 		defer func() {
 			if r := recover(); r != nil {
@@ -410,6 +411,9 @@ func (v *Verifier) verifyFunc(key string, timeout int, tier string) *FuncReport 
 				s.trigger(ls[0].Sort, x.anyVals[av.Name].S)
 			}
 		}
+		for _, ax := range v.db.Axioms[con.Pkg] {
+			env.assumeClause(ax)
+		}
 		for _, c := range con.Requires {
 			env.assumeClause(c)
 		}
@@ -421,9 +425,29 @@ func (v *Verifier) verifyFunc(key string, timeout int, tier string) *FuncReport 
 			}
 			x.mods.items = append(x.mods.items, env.evalMod(c.Expr)...)
 		}
+		for _, mc := range con.Model {
+			func() {
+				defer func() {
+					if r := recover(); r != nil {
+						if _, ok := r.(specErr); !ok {
+							if _, ok2 := r.(unsupported); !ok2 {
+								panic(r)
+							}
+						}
+					}
+				}()
+				v := env.eval(mc.Expr)
+				ls := leavesOf(v.T)
+				ts := flatten(v)
+				for i, l := range ls {
+					x.modelVals = append(x.modelVals, ts[i])
+					x.modelNames = append(x.modelNames, mc.Src+l.Path)
+				}
+			}()
+		}
 		o := x.ob("cover", "entry", "precondition satisfiable", nil)
 		s.cover(o)
-		x.run(s, fn.Blocks[0], nil)
+		x.run(s, fn.Blocks[0], nil, nil)
 	}()
 	x.wg.Wait()
 	rep.Paths = x.npaths + 1
